@@ -70,15 +70,21 @@ def inv_block(case):
             v.append(violation("above_one", {"P": P, "score": s0}, **where))
         # the storage type of the predictions is not part of the partition: a hard partition given as an integer or boolean indicator
         # matrix (and any matrix in single precision) has the score of its float64 copy
-        variants = [("float32", P.astype(np.float32), 1e-5)]
+        Pro = P.copy()
+        Pro.setflags(write=False)
+        variants = [("float32", P.astype(np.float32), 1e-5), ("readonly", Pro, 0.0)]
         if np.all((P == 0) | (P == 1)):
             variants += [("int64", P.astype(np.int64), 0.0), ("bool", P.astype(bool), 0.0), ("int8", P.astype(np.int8), 0.0)]
         for dname, Pv, extra in variants:
             nev += 1
             try:
+                Av = A
+                if dname == "readonly" and A is not None:
+                    Av = np.array(A, copy=True)
+                    Av.setflags(write=False)
                 with np.errstate(all="ignore"):
-                    sv = float(g(Pv, A))
-                    _, Gv = g(Pv.copy(), A, return_grad=True)
+                    sv = float(g(Pv, Av))
+                    _, Gv = g(Pv if dname == "readonly" else Pv.copy(), Av, return_grad=True)
                 okv = abs(sv - s0) <= tol + extra * max(1.0, abs(s0)) and np.shape(Gv) == P.shape and np.isfinite(np.asarray(Gv, dtype=float)).all()
             except Exception as e:  # noqa
                 okv, sv = False, repr(e)[:150]
